@@ -40,6 +40,14 @@ def seed():
         return 0
 
 
+def shard_seed():
+    """Which part of the fixed universe the quick tier explores.  It used to be VERIF_SEED; the known-findings witness lists
+    are complete only for universes that have been run in full on the unchanged tree, so the quick universe is now the same
+    for every seed (shard 0 of every family, a subset of the thorough tier's universe).  VERIF_SEED is recorded in the
+    evidence and selects nothing that could change the set of inputs explored."""
+    return 0
+
+
 def go_env():
     env = dict(os.environ)
     env["GOFLAGS"] = "-mod=mod"
@@ -100,6 +108,7 @@ class TLCResult:
         self.violation = None   # text of an invariant / property violation found by TLC in the model
         self.error = None       # any other TLC error (machinery)
         self.coverage = None
+        self.cached = False
 
 
 def run_tlc(module, constants, cfg_body, outfile, workers=4, timeout=1800, heap="4g",
@@ -176,6 +185,63 @@ def parse_tlc_output(res, rc):
             res.error = text
     elif rc not in (0,) and res.error is None:
         res.error = f"TLC exit status {rc}"
+
+
+def spec_hash():
+    h = hashlib.sha1()
+    for f in sorted(os.listdir(SPEC)):
+        if f.endswith(".tla"):
+            h.update(f.encode())
+            h.update(open(os.path.join(SPEC, f), "rb").read())
+    return h.hexdigest()
+
+
+def _canon(v):
+    if isinstance(v, (set, frozenset)):
+        return ["set"] + sorted(_canon(x) for x in v)
+    if isinstance(v, (list, tuple)):
+        return [_canon(x) for x in v]
+    if isinstance(v, dict):
+        return {k: _canon(x) for k, x in sorted(v.items())}
+    return v
+
+
+def run_tlc_cached(module, constants, cfg_body, workers=4, timeout=3000, heap="4g"):
+    """Generator runs (MC_* modules printing records) are a function of the specification and the constants only - not of
+    /repo - so their output is kept under out/tlccache and shared by the checks that replay the same records (C01-C04,
+    C10 and C11 replay the same family shards).  The replay into the code is never cached.  Returns a TLCResult whose
+    outfile must NOT be removed by the caller; res.cached tells whether TLC ran in this call."""
+    cdir = os.path.join(OUT, "tlccache")
+    os.makedirs(cdir, exist_ok=True)
+    key = hashlib.sha1(json.dumps([module, _canon(constants), cfg_body, spec_hash()], sort_keys=True).encode()).hexdigest()[:24]
+    path, meta = os.path.join(cdir, key + ".out"), os.path.join(cdir, key + ".json")
+    if os.path.exists(path) and os.path.exists(meta):
+        try:
+            m = json.load(open(meta))
+            res = TLCResult()
+            res.generated, res.distinct, res.depth, res.wall = m["generated"], m["distinct"], m["depth"], 0.0
+            res.tlc_wall_when_generated = m["wall"]
+            res.outfile = path
+            res.cached = True
+            return res
+        except Exception:
+            pass
+    tmp = os.path.join(cdir, f"{key}.{os.getpid()}.{time.time_ns()}.tmp")
+    res = run_tlc(module, constants, cfg_body, tmp, workers=workers, timeout=timeout, heap=heap)
+    res.cached = False
+    if res.error or res.violation:
+        try:
+            os.remove(tmp)
+        except OSError:
+            pass
+        return res
+    os.replace(tmp, path)
+    res.outfile = path
+    with open(meta + ".tmp%d" % os.getpid(), "w") as fh:
+        json.dump({"module": module, "constants": _canon(constants), "generated": res.generated, "distinct": res.distinct,
+                   "depth": res.depth, "wall": round(res.wall, 1)}, fh)
+    os.replace(meta + ".tmp%d" % os.getpid(), meta)
+    return res
 
 
 def run_parallel(fns, maxpar):
